@@ -219,3 +219,93 @@ func VXStdTime(s string, flip bool) {
 	want := daysFromCivil(y, dig2(s, 4), dig2(s, 6))*86400 + dig2(s, 8)*3600 + dig2(s, 10)*60 + dig2(s, 12)
 	vv.Assert(xor(int(t.Unix()) == want, flip), "selfcheck: time.Parse value differs from the days-from-civil model")
 }
+
+// Bit operations on operands that may be negative in the interval analysis (rune arithmetic under
+// an ite), and strconv.ParseInt / ParseUint from source.
+func VXStdFold2(a string, flip bool) {
+	vv.Assert(xor(strings.EqualFold(strings.ToLower(a), strings.ToUpper(a)), flip), "selfcheck: EqualFold(ToLower(a), ToUpper(a)) is false")
+}
+
+func VXStdParseInt(a string, flip bool) {
+	n, err := strconv.ParseInt(a, 10, 64)
+	m, ok := modelAtoi(a)
+	good := (err == nil) == ok
+	if ok && err == nil {
+		good = int(n) == m
+	}
+	u, erru := strconv.ParseUint(a, 10, 32)
+	okU := ok && m >= 0 && a[0] != '+' && a[0] != '-'
+	good = good && (erru == nil) == okU
+	if okU && erru == nil {
+		good = good && int(u) == m
+	}
+	vv.Assert(xor(good, flip), "selfcheck: strconv.ParseInt/ParseUint differ from the decimal model")
+}
+
+// UTF-8 decoding in `for range` over a string (engine: symbolic decoder; native: the runtime).
+func utf8Code(s string) int {
+	code := len(s)
+	for i, r := range s {
+		code = (code*31 + (i+1)*int(r)) % 1000003
+	}
+	return code
+}
+
+func VXSelfUTF8Report(s string) { vv.Assert(false, strconv.Itoa(utf8Code(s))) }
+
+func VXSelfUTF8(s string, want int) {
+	vv.Assert(utf8Code(s) == want, "selfcheck: engine and native execution disagree (UTF-8 decoding)")
+}
+
+// VXStdUTF8: on symbolic bytes, the rune sequence of `for range` equals a decoder written from
+// the UTF-8 definition (shortest form, surrogates and > U+10FFFF rejected, one byte consumed per error).
+func VXStdUTF8(s string, flip bool) {
+	var got, want []int
+	for _, r := range s {
+		got = append(got, int(r))
+	}
+	for i := 0; i < len(s); {
+		r, w := defDecode(s[i:])
+		want = append(want, r)
+		i += w
+	}
+	same := len(got) == len(want)
+	for i := 0; same && i < len(got); i++ {
+		same = got[i] == want[i]
+	}
+	vv.Assert(xor(same, flip), "selfcheck: for-range rune decoding differs from the UTF-8 definition")
+}
+
+func isCont(c byte) bool { return c >= 0x80 && c <= 0xBF }
+
+func defDecode(s string) (int, int) {
+	c := s[0]
+	need := 0
+	v := 0
+	switch {
+	case c < 0x80:
+		return int(c), 1
+	case c >= 0xC0 && c <= 0xDF:
+		need, v = 1, int(c)-0xC0
+	case c >= 0xE0 && c <= 0xEF:
+		need, v = 2, int(c)-0xE0
+	case c >= 0xF0 && c <= 0xF7:
+		need, v = 3, int(c)-0xF0
+	default:
+		return 0xFFFD, 1
+	}
+	if len(s) < need+1 {
+		return 0xFFFD, 1
+	}
+	for k := 1; k <= need; k++ {
+		if !isCont(s[k]) {
+			return 0xFFFD, 1
+		}
+		v = v*64 + int(s[k]) - 0x80
+	}
+	min := []int{0, 0x80, 0x800, 0x10000}[need]
+	if v < min || v > 0x10FFFF || (v >= 0xD800 && v <= 0xDFFF) {
+		return 0xFFFD, 1
+	}
+	return v, need + 1
+}
